@@ -165,6 +165,13 @@ def compare_attr(dlf, da, ea, opmap, where, alt_units=None, alt_values=None):
         e = _expected_scalar(ea, ev)
         if isinstance(e, str):
             ok = isinstance(dv, str) and dv == e
+            if not ok and k == 'generic' and not isinstance(dv, str):
+                # text that denotes a number may be written as that number (the library's value conversion for
+                # parameter values, computation values and axis coordinates): both forms are faithful
+                try:
+                    ok = num_equal(dv, float(e) if '.' in e else int(e))
+                except ValueError:
+                    ok = False
         elif isinstance(e, bool):
             ok = num_equal(dv, int(e))
         elif isinstance(e, (int, float)):
